@@ -226,6 +226,10 @@ type Terminal struct {
 	startupDone bool
 	writeNo     int
 
+	// NoOSC10 / NoOSC11: the terminal answers only one of the two default
+	// colour queries although Caps.OSC1011 is set
+	NoOSC10, NoOSC11 bool
+
 	// UnsupportedModeReport is the DECRPM status reported for private modes
 	// the terminal does not support: 0 (not recognised) or 4 (permanently reset).
 	UnsupportedModeReport int
@@ -1696,7 +1700,7 @@ func (t *Terminal) osc(body, term string) {
 	case "10", "11":
 		if rest == "?" {
 			t.probe("osc1011", t.Caps.OSC1011)
-			if t.Caps.OSC1011 {
+			if t.Caps.OSC1011 && !(num == "10" && t.NoOSC10) && !(num == "11" && t.NoOSC11) {
 				v := t.FgColor
 				if num == "11" {
 					v = t.BgColor
